@@ -65,7 +65,7 @@ pub fn plan(id: &str, tier: Tier) -> Plan {
     let q = |a: f64, b: f64| over.unwrap_or(if tier.thorough() { b } else { a });
     match id {
         "C15" => Plan { cap_s: q(40.0, 600.0), shards: n, seeded: false },
-        "C17" | "C09" => Plan { cap_s: q(55.0, 900.0), shards: n, seeded: false },
+        "C17" | "C09" | "C12" => Plan { cap_s: q(55.0, 900.0), shards: n, seeded: false },
         "C02" | "C03" | "C04" | "C05" | "C10" => Plan { cap_s: q(40.0, 900.0), shards: n, seeded: false },
         _ => Plan { cap_s: q(40.0, 600.0), shards: n, seeded: false },
     }
